@@ -9,6 +9,7 @@ import (
 	cedar "github.com/cedar-policy/cedar-go"
 	pubast "github.com/cedar-policy/cedar-go/ast"
 	"github.com/cedar-policy/cedar-go/types"
+	"github.com/cedar-policy/cedar-go/x/exp/ast"
 	"github.com/cedar-policy/cedar-go/x/exp/batch"
 
 	"verifharness/cwf"
@@ -262,6 +263,32 @@ func driveBatch(seed int64, n int, params map[string]string) []Obj {
 		pols := []any{}
 		for k := 0; k < np; k++ {
 			pols = append(pols, Obj{"id": fmt.Sprintf("p%d", k), "policy": cwf.PolicyToJ(g.policy(3))})
+		}
+		// conditions that relate two request parts (decided at different recursion levels)
+		for k := g.r.Intn(3); k > 0; k-- {
+			ctxAttr := func(a string) ast.IsNode {
+				return ast.NodeTypeAccess{StrOpNode: ast.StrOpNode{Arg: ast.NodeTypeVariable{Name: "context"}, Value: types.String(a)}}
+			}
+			v := func(n string) ast.IsNode { return ast.NodeTypeVariable{Name: types.String(n)} }
+			var body ast.IsNode
+			switch g.r.Intn(5) {
+			case 0:
+				body = ast.NodeTypeEquals{BinaryNode: bin(v("principal"), ctxAttr("e"))}
+			case 1:
+				body = ast.NodeTypeContains{BinaryNode: bin(ctxAttr("ss"), v("resource"))}
+			case 2:
+				body = ast.NodeTypeEquals{BinaryNode: bin(ctxAttr("n"), ast.NodeTypeAccess{StrOpNode: ast.StrOpNode{Arg: ctxAttr("r"), Value: "n"}})}
+			case 3:
+				body = ast.NodeTypeContains{BinaryNode: bin(ast.NodeTypeSet{Elements: []ast.IsNode{v("principal"), v("resource")}}, ctxAttr("e"))}
+			default:
+				body = ast.NodeTypeIn{BinaryNode: bin(v("principal"), v("resource"))}
+			}
+			p := &ast.Policy{Effect: ast.EffectPermit, Principal: ast.ScopeTypeAll{}, Action: ast.ScopeTypeAll{}, Resource: ast.ScopeTypeAll{},
+				Conditions: []ast.ConditionType{{Condition: ast.ConditionWhen, Body: body}}}
+			if g.r.Intn(3) == 0 {
+				p.Effect = ast.EffectForbid
+			}
+			pols = append(pols, Obj{"id": fmt.Sprintf("rel%d", k), "policy": cwf.PolicyToJ(p)})
 		}
 		fault := Obj{"kind": "none", "at": 1}
 		if total > 0 && g.r.Intn(3) == 0 {
